@@ -18,6 +18,7 @@ import numpy as np
 from vf import lops
 from vf.common import Plan, crandn, held, violated, inconclusive, rng_for, nrm, pick
 from vf.oracles.algebra import Spec
+from vf.monitors import STATE
 
 SPEC = {
     "rule": ("cases = random expression trees (depth <= 3 quick / <= 4 thorough) over all "
@@ -243,8 +244,10 @@ def run_case(case):
         worst = 0.0
         for k in range(2):
             x = crandn(rng, ish, dt)
+            STATE.peak = 0.0
             got = np.asarray(A(x))
             ref = np.asarray(spec.apply(desc, x))
+            peak = STATE.peak     # largest intermediate ||.|| seen by the apply hook
             checks += 1
             if tuple(got.shape) != osh:
                 return violated(sig, "output shape %s, advertised %s" % (got.shape, osh), wit,
@@ -252,7 +255,9 @@ def run_case(case):
             if got.shape != ref.shape:
                 return violated(sig, "output shape %s, matrix expression gives %s" % (
                     got.shape, ref.shape), wit, mech="oshape-vs-spec")
-            sc = nrm(ref) + nrm(x) * 1e-3
+            # floor: trees whose parts cancel exactly leave round-off of the (possibly
+            # much larger) intermediates; 1e-10 * 1e-3 * peak is ~1e3 eps * peak
+            sc = nrm(ref) + 1e-3 * max(nrm(x), peak)
             e = nrm(got - ref) / sc if sc > 0 else nrm(got - ref)
             worst = max(worst, e)
             if not e <= tol:
@@ -262,6 +267,7 @@ def run_case(case):
         obs["rel"] = worst
         n = int(np.prod(ish))
         if dt == np.complex128 and n <= 64 and int(np.prod(osh)) <= 256:
+            STATE.peak = 0.0
             M = lops.dense(A)
             cols = []
             for j in range(n):
@@ -271,7 +277,7 @@ def run_case(case):
             R = np.stack(cols, axis=1)
             checks += 1
             dmax = float(np.max(np.abs(M - R))) if M.size else 0.0
-            sc = max(1.0, float(np.max(np.abs(R))) if R.size else 1.0)
+            sc = max(1.0, float(np.max(np.abs(R))) if R.size else 1.0, 1e-3 * STATE.peak)
             obs["dense"] = dmax / sc
             sig += "|dense"
             if not dmax <= 1e-10 * sc * n:
